@@ -55,6 +55,7 @@ func registrySuites() string {
 // reference models (never by the library).
 func buildOps() []hop {
 	var ops []hop
+	ss0 := shortShape()
 	gen := func(name string, c uint64, d, a int) {
 		ops = append(ops, hop{name, func() (string, []string) {
 			s, err := otp.GenerateHOTP(hopSec, c, &otp.Param{Digits: otp.Digits(d), Algorithm: otp.Algorithm(a)})
@@ -82,6 +83,26 @@ func buildOps() []hop {
 		s, err := otp.GenerateTOTP(hopSec, time.Unix(59, 0), &otp.Param{Digits: 8, Algorithm: otp.SHA1, Period: 30})
 		return s + "|" + errStr(err), []string{s}
 	}, ref.HOTP(hopKey, 1, 8, 0) + "|<nil>"})
+	ops = append(ops, hop{"totp-gen-sha512-6-p60", func() (string, []string) {
+		s, err := otp.GenerateTOTP(hopSec, time.Unix(1111111109, 0), &otp.Param{Digits: 6, Algorithm: otp.SHA512, Period: 60})
+		return s + "|" + errStr(err), []string{s}
+	}, ref.HOTP(hopKey, ref.Step(1111111109, 60), 6, 2) + "|<nil>"})
+	ops = append(ops, hop{"totp-validate-hit", func() (string, []string) {
+		ok, err := otp.ValidateTOTP(hopSec, ref.HOTP(hopKey, 2, 6, 1), time.Unix(59, 0), &otp.Param{Digits: 6, Algorithm: otp.SHA256, Period: 30, Skew: 1})
+		return fmt.Sprint(ok, "|", errStr(err)), nil
+	}, "true|<nil>"})
+	// REFUSED calls of every family (each leaves through an early return of its own): what an early exit hands back
+	// to a pool, or leaves half-done, meets the calls that follow
+	ops = append(ops, hop{"refused-calls", func() (string, []string) {
+		_, e1 := otp.ValidateTOTP(hopSec, "123456", time.Unix(59, 0), &otp.Param{Digits: 6, Skew: 11, Period: 30})
+		_, e2 := otp.ValidateHOTP(hopSec, "123456", 5, &otp.Param{Digits: 6, Skew: 11})
+		_, e3 := otp.GenerateTOTP(hopSec, time.Unix(59, 0), &otp.Param{Digits: 11, Period: 30})
+		_, e4 := otp.GenerateHOTP("not base32!", 1, nil)
+		_, e5 := otp.ValidateTOTP(hopSec, "12345", time.Unix(59, 0), nil)
+		_, e6 := otp.GenerateTOTP(hopSec, time.Unix(59, 0), &otp.Param{Digits: 6, Algorithm: otp.Algorithm(9), Period: 30})
+		_, e7 := otp.ValidateOCRA(hopSec, "1", ss0.lib(), otp.OCRAInput{})
+		return fmt.Sprint(e1 != nil, e2 != nil, e3 != nil, e4 != nil, e5 != nil, e6 != nil, e7 != nil), nil
+	}, fmt.Sprint(true, true, true, true, true, true, true)})
 	ss, ls := shortShape(), longShape()
 	sin, lin := admissible(ss, 0), admissible(ls, 4)
 	ops = append(ops, hop{"ocra-short", func() (string, []string) {
